@@ -79,10 +79,11 @@ def _clone(n, idmap, subst):
 
 
 class _Inliner:
-    def __init__(self, prog, f, depth):
+    def __init__(self, prog, f, depth, keep=()):
         self.p = prog
         self.f = f
         self.depth = depth
+        self.keep = set(keep)
         self.count = 0
         self.serial = 0
         self.renames = {}      # caller var id → helper-local id (nrvo)
@@ -99,6 +100,8 @@ class _Inliner:
         if len(ts) != 1:
             return None
         h = ts[0]
+        if h.name in self.keep:
+            return None
         if h.kind in ('lambda', 'ctor', 'dtor') or h.key in stack or h is self.f or not (h.file == self.f.file or (h.cls is not None and h.cls == self.f.cls)):
             return None
         if len(h.params) != len(SX.real_args(e)) or h.d.get('virtual'):
@@ -113,8 +116,8 @@ class _Inliner:
         rets = [n for n in SX.walk(h.body, into_lambdas=False) if n['k'] == 'return']
         if rets and not (len(rets) == 1 and body and body[-1] is rets[0]):
             return None
-        if any(n['k'] in ('goto', 'label', 'unkstmt') for n in SX.walk(h.body)):
-            return None
+        if any(n['k'] in ('goto', 'label', 'unkstmt') or (n['k'] == 'var' and n.get('static')) for n in SX.walk(h.body)):
+            return None      # a static local is one object for all calls: not expressible after inlining
         # a helper that calls itself (directly) is not inlined
         if any(n.get('k') in ('call', 'mcall') and n.get('callee') == h.name for n in SX.walk(h.body)):
             return None
@@ -476,16 +479,18 @@ def _copyprop(body):
     return nb, total[0]
 
 
-def normalise(prog, f, depth=3):
-    """f with helpers inlined, returned records scalarised and trivial copies removed; f itself when nothing applies"""
+def normalise(prog, f, depth=3, keep=()):
+    """f with helpers inlined, returned records scalarised and trivial copies removed; f itself when nothing applies.
+    keep: qualified names of callees whose calls must stay calls (a rule that looks for the call of a guard function)"""
     cache = getattr(prog, '_normalised', None)
     if cache is None:
         cache = prog._normalised = {}
-    if id(f) in cache:
-        return cache[id(f)]
+    ck = (id(f), tuple(sorted(keep)))
+    if ck in cache:
+        return cache[ck]
     res = f
     if f.body and f.body.get('k') == 'block':
-        inl = _Inliner(prog, f, depth)
+        inl = _Inliner(prog, f, depth, keep)
         nb = dict(f.body, body=inl.stmts(f.body['body'], frozenset([f.key]), depth))
         if inl.count:
             if inl.renames:
@@ -497,5 +502,5 @@ def normalise(prog, f, depth=3):
             res.d = dict(f.d, body=nb)
             res.normalised = {'inlined': inl.count, 'nrvo': len(inl.renames), 'sroa': ns, 'copies': nc}
             res.lambdas = f.lambdas
-    cache[id(f)] = res
+    cache[ck] = res
     return res
